@@ -332,7 +332,7 @@ def shrink(r, key):
         for _ in range(2):
             x = run_text(case_text(rr))
             if x is not None and any(k == key for k, _ in oracle(x)):
-                return key != "C06:refinement" or reference_is_deterministic(rr)
+                return key != "C06:refinement" or rr["kind"] != "visual" or reference_is_deterministic(rr)
         return False
     cur = r
     budget = 24
@@ -407,7 +407,7 @@ def run(chk):
             if any(len(b) >= 2 for b in r["hist"]) and r["v"] >= 2 and nonserial(r):
                 nontrivial.add(case_text(r))
         bad = oracle(r)
-        if bad and bad[0][0] == "C06:refinement" and not reference_is_deterministic(r):
+        if bad and bad[0][0] == "C06:refinement" and r["kind"] == "visual" and not reference_is_deterministic(r):
             ties_skipped.append(i)
             bad = []
         if bad:
@@ -513,7 +513,7 @@ def replay(chk, path):
         bad = oracle(r)
         if r["type"] == "probe" and r["early"]:
             bad.append(("C06:monitor", "monitor passed early"))
-        if bad and bad[0][0] == "C06:refinement" and not reference_is_deterministic(r, tries=12):
+        if bad and bad[0][0] == "C06:refinement" and r["kind"] == "visual" and not reference_is_deterministic(r, tries=12):
             print("the per-scene simple tracker answers differently on this very input (exact tie in the voting stage):")
             print("the comparison says nothing about the property; not a violation")
             return 0
